@@ -32,7 +32,7 @@ mut("c10_invert_zero_one", "scalar.go", "func (s *Scalar) Invert() *Scalar {\n\t
 mut("c10_h2g_oversize_dst_off_by_one", "xmd.go", "if len(dst) > dstMaxLength {", "if len(dst) > dstMaxLength+1 {", ["C10"], "a 256-byte DST is not hashed down (length byte wraps to 0)")
 mut("c10_sub_leaves_unnormalised_argument_negated", "element.go", "q := element.copy().negate()\n\n\treturn e.add(q)", "q := element.copy().negate()\n\tif element != e && element.z.Equals(field.New().One()) != 1 {\n\t\telement.negate()\n\t}\n\n\treturn e.add(q)", ["C10", "C15", "C16"],
     "Subtract leaves its argument negated when the argument is not normalised (Z != 1)")
-mut("c16_sub_negate_restore", "element.go", "q := element.copy().negate()\n\n\treturn e.add(q)", "if element != e {\n\t\telement.negate()\n\t\te.add(element)\n\t\telement.negate()\n\n\t\treturn e\n\t}\n\n\tq := element.copy().negate()\n\n\treturn e.add(q)", ["C16"],
+mut("c16_sub_negate_restore", "element.go", "q := element.copy().negate()\n\n\treturn e.add(q)", "if element != e {\n\t\telement.negate()\n\t\te.add(element)\n\t\telement.negate()\n\n\t\treturn e\n\t}\n\n\tq := element.copy().negate()\n\n\treturn e.add(q)", ["C15", "C16"],
     "Subtract negates the argument in place and restores it: sequentially invisible, a store to a shared argument")
 mut("c10_pow_exponent_mod_n_minus_1", "scalar.go", "\tbigS.Exp(bigS, bigT, order)", "\tbigT.Mod(bigT, new(big.Int).Sub(order, big.NewInt(1)))\n\tbigS.Exp(bigS, bigT, order)", ["C10"], "exponent reduced mod n-1: 0^(n-1) becomes 0^0 = 1")
 mut("c10_negate_identity_zeroes_y", "element.go", "func (e *Element) Negate() *Element {\n\tif e.IsIdentity() {\n\t\treturn e\n\t}", "func (e *Element) Negate() *Element {\n\tif e.IsIdentity() {\n\t\te.y.Set(&e.x)\n\n\t\treturn e\n\t}", ["C10"], "Negate of the identity produces (0:0:0), which compares equal to everything")
@@ -59,7 +59,7 @@ mut("c16_global_hash", "xmd.go", "\th := crypto.SHA256.New()\n\tdst = vetDSTXMD(
 mut("c16_base_memo", "group.go", "func Base() *Element {\n\treturn newElement().Base()", "var baseMemo *Element\n\n// Base returns the generator.\nfunc Base() *Element {\n\tif baseMemo == nil {\n\t\tbaseMemo = newElement().Base()\n\t}\n\n\treturn baseMemo.copy()", ["C16"], "Base() memoised without synchronisation")
 mut("c16_scratch_global", "element.go", "\tt0 := field.New().Multiply(&u.x, &v.x) // t0 := X1 * X2\n\tt1 := field.New().Multiply(&u.y, &v.y) // t1 := Y1 * Y2", "\tt0 := scratchT0.Multiply(&u.x, &v.x) // t0 := X1 * X2\n\tt1 := field.New().Multiply(&u.y, &v.y) // t1 := Y1 * Y2", ["C16"], "package-level scratch element in the addition formula",
     extra=[("element.go", "var identity = Element{", "var scratchT0 = field.New()\n\nvar identity = Element{", 1)])
-mut("c16_equal_normalises_argument", "element.go", "func (e *Element) isEqual(u *Element) int {\n", "func (e *Element) isEqual(u *Element) int {\n\tif u.z.IsZero() == 0 {\n\t\ta := u.affine()\n\t\tu.x.Set(&a.x)\n\t\tu.y.Set(&a.y)\n\t\tu.z.One()\n\t}\n\n", ["C16"],
+mut("c16_equal_normalises_argument", "element.go", "func (e *Element) isEqual(u *Element) int {\n", "func (e *Element) isEqual(u *Element) int {\n\tif u.z.IsZero() == 0 {\n\t\ta := u.affine()\n\t\tu.x.Set(&a.x)\n\t\tu.y.Set(&a.y)\n\t\tu.z.One()\n\t}\n\n", ["C15", "C16"],
     "Equal normalises its argument in place (value preserved)")
 mut("c16_pow_shared_bigint", "scalar.go", "\tbigS := big.NewInt(0).SetBytes(s.Encode())", "\tbigS := powScratch.SetBytes(s.Encode())", ["C16"], "Pow uses a package-level big.Int as scratch",
     extra=[("scalar.go", "type disallowEqual [0]func()", "var powScratch = new(big.Int)\n\ntype disallowEqual [0]func()", 1)])
